@@ -59,6 +59,31 @@ theorem errors_validateP (env : Env) (text : Str) (p : Parsed) (hb : hasError (b
     exact hb i hi
   simp only [validateP, hb, Bool.false_eq_true, if_false, errors, List.filter_append, hnil, List.nil_append]
 
+/-! ### the entries' trees (definition model) do not depend on the dictionary -/
+
+mutual
+theorem resolveNode_envWith (env : Env) (dd : Defs.DefDict) (text : Str) :
+    ∀ n : Node, resolveNode (envWith env dd) text n = resolveNode env text n
+  | .tag _ _ => rfl
+  | .group a b kids => by simp only [resolveNode]; rw [resolveList_envWith env dd text kids]
+theorem resolveList_envWith (env : Env) (dd : Defs.DefDict) (text : Str) :
+    ∀ l : List Node, resolveList (envWith env dd) text l = resolveList env text l
+  | [] => rfl
+  | n :: ns => by simp only [resolveList]; rw [resolveNode_envWith env dd text n, resolveList_envWith env dd text ns]
+end
+
+mutual
+theorem toDefsNode_envWith (env : Env) (dd : Defs.DefDict) : ∀ n : RNode, toDefsNode (envWith env dd) n = toDefsNode env n
+  | .tag _ => rfl
+  | .group s kids => by simp only [toDefsNode]; rw [toDefsList_envWith env dd kids]
+theorem toDefsList_envWith (env : Env) (dd : Defs.DefDict) : ∀ l : List RNode, toDefsList (envWith env dd) l = toDefsList env l
+  | [] => rfl
+  | n :: ns => by simp only [toDefsList]; rw [toDefsNode_envWith env dd n, toDefsList_envWith env dd ns]
+end
+
+theorem toDefs_envWith (env : Env) (dd : Defs.DefDict) (s : Str) : toDefs (envWith env dd) s = toDefs env s := by
+  simp only [toDefs, parse, toDefsList_envWith, resolveList_envWith]
+
 end HedVerif.Closed
 
 namespace HedVerif.C07
@@ -421,6 +446,54 @@ theorem sidecar_pipeline_example_closed :
     (validateClosed C01.Tiny.env .fixed closedDoc).toOption =
     some [⟨[], Validate.Kind.tagRepeated.code, 1, some ['a'], some ['x']⟩,
           ⟨[], Validate.Kind.noValidTag.code, 1, some ['a'], some ['y']⟩] := by
+  decide +kernel
+
+/-! #### sidecars that declare definitions (`validateClosedD`) -/
+
+/-- `extract_stage_closed`: the second stage (validation against the enlarged dictionary) extracts the same definitions and
+extraction issues as the first: extraction reads the entries' trees and the schema, never the dictionary. -/
+theorem extract_stage_closed (env : Validate.Env) (dd : Defs.DefDict) (g : Guards) (doc : Json) :
+    extractDefsDoc g (sidecarOracleD (envWith env dd)) doc = extractDefsDoc g (sidecarOracleD env) doc := by
+  have hd : (sidecarOracleD (envWith env dd)).defTree = (sidecarOracleD env).defTree := by
+    funext s; exact toDefs_envWith env dd s
+  have hf : (sidecarOracleD (envWith env dd)).fold = (sidecarOracleD env).fold := rfl
+  unfold extractDefsDoc extractDefs extractColumn extractString
+  simp only [hd, hf]
+
+/-- `validate_eq_closedD`: on the fixed tree the closed sidecar pipeline with declared definitions is a pure function of
+the document and the environment. -/
+theorem validate_eq_closedD (env : Validate.Env) (doc : Json) :
+    validateClosedD env .fixed doc =
+      .ok (validateDP (sidecarOracleD (envWith env (sidecarDict env .fixed doc))) (env.defs.map (·.key)) doc) :=
+  validateD_eq _ _ doc
+
+/-- `sidecar_total_closedD`: it returns a list of issues for every JSON value and every environment. -/
+theorem sidecar_total_closedD (env : Validate.Env) (doc : Json) : ∃ issues, validateClosedD env .fixed doc = .ok issues :=
+  ⟨_, validate_eq_closedD env doc⟩
+
+/-- `defs_extracted_closed`: the dictionary that joins the environment is, in order, the first acceptable candidate of
+each name among the sidecar's definition groups (C09's `Acceptable` / `newEntry`), read off the trees `Validate` builds. -/
+theorem defs_extracted_closed (env : Validate.Env) (doc : Json) :
+    sidecarDict env .fixed doc =
+      (firstAccepted Validate.fold [] (candidates (sidecarOracleD env) (loadP doc).2)).map fun c =>
+        C09.newEntry Validate.fold c.dt c.ks := by
+  unfold sidecarDict
+  rw [extractDefsDoc_eq]
+  exact defs_extracted_spec (sidecarOracleD env) (loadP doc).2
+
+/-- `{"d": {"HED": {"d1": "(Definition/Mk/#, (Label/#))"}}, "a": {"HED": {"go": "Def/Mk/ab", "no": "Def/Mk", "z": "Def/Zz"}}}` -/
+def closedDefDoc : Json :=
+  .obj [(['d'], .obj [(HED, .obj [(['d','1'], .str ['(','D','e','f','i','n','i','t','i','o','n','/','M','k','/','#',',',' ','(','L','a','b','e','l','/','#',')',')'])])]),
+        (['a'], .obj [(HED, .obj [(['g','o'], .str ['D','e','f','/','M','k','/','a','b']), (['n','o'], .str ['D','e','f','/','M','k']), (['z'], .str ['D','e','f','/','Z','z'])])])]
+
+/-- `sidecar_defs_example_closed`: the sidecar declares `Mk/#` ↦ `(Label/#)`; `Def/Mk/ab` in another column is accepted
+against it, `Def/Mk` (value missing) and `Def/Zz` (not declared) are DEF_INVALID at their column and key; the declaring
+entry itself draws no issue. -/
+theorem sidecar_defs_example_closed :
+    (sidecarDict C01.Tiny.env .fixed closedDefDoc).map (fun e => (e.key, e.takes)) = [(['m','k'], true)] ∧
+    (validateClosedD C01.Tiny.env .fixed closedDefDoc).toOption =
+      some [⟨[], Validate.Kind.defValueMissing.code, 1, some ['a'], some ['n','o']⟩,
+            ⟨[], Validate.Kind.defUnmatched.code, 1, some ['a'], some ['z']⟩] := by
   decide +kernel
 
 end HedVerif.C08
